@@ -14,9 +14,9 @@
 //! A `Box<[u8]>` is its own heap allocation and has no neighbours to guard (`canary=ok` is printed
 //! unconditionally for `cbox` and `vec`).
 //!
-//! Output: `<r1>,<r2>,…;pos=<position>;buf=<hex of the buffer>;canary=ok|clobbered`
-//!   sink:    r_i = `ok` | `err`          (`-` if there are no calls)
-//!   sinkenc: one status `ok` | `err <class>`
+//! Output: `<status> pos=<position> buf=<hex of the buffer> canary=ok|clobbered`
+//!   sink:    status = `seq:<r1>,<r2>,…` with r_i = `ok` | `err`   (`seq:-` if there are no calls)
+//!   sinkenc / sinkval: status = `ok` | `err <class>`
 //! `pos`: `Cursor::position()`; for `slice` cap − the remaining slice's length; `vec`: its length; `io`: bytes the
 //! inner writer accepted.
 use crate::util::*;
@@ -100,7 +100,7 @@ fn drive<W: Write>(w: W, call: &Call) -> Option<(String, W)> {
             let mut w = w;
             let mut rs = Vec::new();
             for c in chunks { rs.push(if w.write_all(c).is_ok() { "ok" } else { "err" }); }
-            Some((if rs.is_empty() { "-".into() } else { rs.join(",") }, w))
+            Some((format!("seq:{}", if rs.is_empty() { "-".into() } else { rs.join(",") }), w))
         }
         Call::Enc(calls) => {
             let mut e = Encoder::new(w);
@@ -152,7 +152,7 @@ fn encode_value<W: Write>(w: W, v: &str) -> Option<(String, W)> {
 }
 
 fn line(status: String, pos: usize, buf: &[u8], canary: bool) -> String {
-    format!("{};pos={};buf={};canary={}", status, pos, hex(buf), if canary { "ok" } else { "clobbered" })
+    format!("{} pos={} buf={} canary={}", status, pos, hex(buf), if canary { "ok" } else { "clobbered" })
 }
 
 fn carray<const N: usize>(call: &Call) -> Option<String> {
